@@ -261,6 +261,9 @@ pub fn run(tier: Tier) -> i32 {
         crash_subject: "stack-init".into(),
     };
     let g = gen(maxc);
+    if let Some(art) = crate::common::replay_artefact() {
+        return crate::common::finish_replay("C17", &art, &|ws| confirm_enum(&o, &g, ws));
+    }
     let out = run_enum(&o, &g);
     enum_evidence(&mut run, &out, "one case = (argc, envc in 0..=N, one of 8 rotations of the string shapes {empty, 1, 7, 8, 15, 16, 17, 300 bytes}, stack size in {0, 8, 16, 64, 0x100, 0x1000, 0x1001, 0x2000}, one of 4 layouts); the frame is read back by executing guest `pop rax` instructions and by following the pointers; areas from the structured view; states = distinct configurations; distinct_nontrivial = distinct (configuration, number of violated clauses)");
     run.cov("max_argc_envc", json!(maxc));
